@@ -126,6 +126,10 @@ structure Cert where
   der : Bytes
   ecdsaPk : Option Bytes
   ext : PckExt
+  /-- PCE-ID of a PCK certificate (SGX extension 1.2.840.113741.1.13.1.3). `verifyPCK` does NOT
+  extract it; it is part of the model only so that the property's "collateral belongs to the
+  quote's platform" clause can be stated (`pceIdOK`). -/
+  pceId : Option Bytes := none
   deriving DecidableEq, Repr
 
 inductive CertData
@@ -183,6 +187,8 @@ structure TcbInfo where
   evalNum : Nat
   levels : List TcbLevel
   modules : List TdxModuleId
+  /-- `pceId` JSON string: decoded by the Go code but never read by the verifier. -/
+  pceId : Bytes := []
   deriving DecidableEq, Repr
 
 /-- Decoded QE identity body (tcb.go:584-598). -/
@@ -556,6 +562,25 @@ def verify (L : Lib) (env : Env) (policy : Option Policy) (ts : Time) (q : Quote
   checkTee env pol q
   sigVerify L env ts pol q tcb
   .ok (identityOf L q.bodyKind q.bodyRaw)
+
+/-! ### spec-only predicates (NOT checked by the Go code; known findings K1, K2) -/
+
+/-- The TCB info is for the platform's PCE: its `pceId` decodes to the PCE-ID of the quote's PCK
+certificate (Intel's verification library requires FMSPC *and* PCE-ID to match). -/
+def pceIdOK (q : Quote) (ti : TcbInfo) : Bool :=
+  match q.certData with
+  | .chain (leaf :: _) =>
+    match leaf.pceId, hexDecode ti.pceId with
+    | some p, some p' => p == p'
+    | _, _ => false
+  | _ => false
+
+/-- The TCB info's FMSPC is black-listed when compared as the platform identifier it denotes
+(decoded bytes) rather than as a string. -/
+def blacklistedByValue (pol : Policy) (ti : TcbInfo) : Bool :=
+  match hexDecode ti.fmspc with
+  | some f => pol.blacklist.any (fun b => hexDecode b == some f)
+  | none => false
 
 /-! ### node registration (go/common/node/sgx.go:218-262): what is bound to the verified quote -/
 
